@@ -6,6 +6,7 @@
         x<k,k,..|->   lh_foreach_safe, deleting the current entry when its key is listed
         z<n>          lh_table_resize
         b<n>          add keys 0..n-1, report as ret the key counts at which the table grew
+     H <hsel> <key,key,..>   the table's string hash on the same bytes at 8 offsets and in a duplicate: "ok" per key
      L <lo> <hi> <step>   least count with count >= size * LH_LOAD_FACTOR for size = lo, lo+step, .. <= hi
      B <hsel> <size> <limit> <key,key,..> <op;op;..>   json_object_object_* ; keys hex[@hash]
         a<ki>,<v|n>,<flags>[!]   add / add_ex (1 = KEY_IS_NEW, 2 = CONSTANT_KEY); ! = first allocation refused
@@ -13,6 +14,9 @@
         x<ki,ki,..|->             json_object_object_foreach deleting the current key when listed
         y<ki,ki,..|->             the same in a translation unit compiled as strict ISO C (the portable
                                   definition of the macro in json_object.h)
+        g<ki>                     every lookup entry point (get_ex, get, lh_table_lookup_ex/_entry/_entry_w_hash)
+        any of a/d/g may end in @<off>: the C driver passes a copy of the key text placed <off> bytes
+        (0..7) after an 8-aligned base; lookups after each step rotate through all offsets
         h<sel>                    json_global_set_string_hash(sel) while the objects are alive (ret = its result)
         o                         switch to the other of two objects; it is created (json_object_new_object,
                                   same initial size) at the first switch, under the selection current THEN
@@ -60,8 +64,15 @@ let run_ops modeb hash_of gsel0 mk nkeys al t0 ops =
     | IOut why -> raise (Out (reason why)) in
   (try
     List.iter (fun s ->
+      (* "@off": where the caller's copy of the key text lies (mode B); a key is its bytes, the
+         model has no addresses *)
+      let s = match String.index_opt s '@' with Some i -> String.sub s 0 i | None -> s in
       let body = String.sub s 1 (String.length s - 1) in
       match s.[0] with
+      | 'g' ->
+          (match obj_get_ex keq hash (t ()) (int_of_string body) with
+           | Some v -> emit (vstr modeb v)
+           | None -> emit "-")
       | 'a' when not modeb ->
           (match ints body with
            | [k; v] -> ires (obj_add_ex keq hash al false (t ()) k v false false)
@@ -170,6 +181,9 @@ let run line =
        | IOk t -> run_ops true hash_of gsel0 mk (Array.length ks) (mk_alloc limit) t (split_on ';' ops)
        | IFail -> "NOMEM"
        | IOut why -> "OUT-" ^ reason why)
+  | ["H"; _; keys] ->
+      (* the string hash is a function of the key bytes: nothing depends on where they lie *)
+      String.concat "," (List.map (fun _ -> "ok") (String.split_on_char ',' keys))
   | ["L"; lo; hi; step] ->
       let lo = z_of_string lo and hi = z_of_string hi and step = z_of_string step in
       let b = Buffer.create 4096 in
